@@ -339,6 +339,20 @@ def match_known(v, known):
             if case.get('entry') == 'converter' and str(case.get('dtype', ''))[:1].isupper() and \
                     str(case.get('dtype', '')).rstrip('0123456789') in ('Int', 'UInt', 'Float') and 'TypeError' in v.get('what', ''):
                 return k
+        elif m.get('kind') == 'size_ed_float_rounding':
+            # SizeFilter / EDIT_DISTANCE with a non-integral float threshold t such that n + t or n - t is not exact in binary64
+            flt = case.get('filter') or {}
+            t = flt.get('threshold')
+            t = t.get('f') if isinstance(t, dict) else None
+            if case.get('entry') == 'filter' and case.get('kind') == 'size' and flt.get('measure') == 'EDIT_DISTANCE' and isinstance(t, str) \
+                    and 'cannot reach the threshold' in v.get('what', ''):
+                tf = struct.unpack('>d', bytes.fromhex(t))[0]
+                mm = re.search(r'sizes (\d+)/(\d+)\)$', v.get('what', ''))
+                if mm and tf != int(tf):
+                    from fractions import Fraction as F_
+                    n1, n2 = int(mm.group(1)), int(mm.group(2))
+                    if any(F_(n + s_ * tf) != F_(n) + s_ * F_(tf) for n in (n1, n2) for s_ in (1, -1)):
+                        return k
         elif m.get('kind') == 'tiny_threshold':
             t = case.get('threshold')
             if isinstance(t, float) and 0 < t < float(m['below']):
